@@ -276,9 +276,11 @@ theorem tree_floor_and_cap_within_bounds :
   decide
 
 /-- **RRSIG windows bound the compiled `getRRSIGTTL`**: an already expired
-signature contributes at most the floor, one expiring in 7 s at most 7 s. -/
+signature contributes at most the floor — also when its window is inverted
+(Inception numerically after Expiration) —, one expiring in 7 s at most 7 s. -/
 theorem tree_rrsig_facts :
     SdnsVerif.Gen.C04.rrsig_expired_ttl_ns ≤ 5000000000 ∧
+    SdnsVerif.Gen.C04.rrsig_expired_inverted_ttl_ns ≤ 5000000000 ∧
     SdnsVerif.Gen.C04.rrsig_short_ttl_ns ≤ 7000000000 := by
   decide
 
